@@ -178,3 +178,60 @@ Proof.
   intro H. apply strict_sorted_unique; try apply sort_nodup_sorted.
   intro x. rewrite !sort_nodup_In. apply H.
 Qed.
+
+(** ** sort.Strings / sort.Slice on distinct-or-equal string keys: insertion sort, and the fact that the
+    result depends only on the multiset of its input (map iteration order does not matter). *)
+Fixpoint insert_str (x : string) (l : list string) : list string :=
+  match l with
+  | [] => [x]
+  | y :: r => if sleb x y then x :: l else y :: insert_str x r
+  end.
+Definition sort_str (l : list string) : list string := fold_right insert_str [] l.
+
+Lemma insert_str_perm x l : Permutation (insert_str x l) (x :: l).
+Proof.
+  induction l as [|y r IH]; simpl; [reflexivity|].
+  destruct (sleb x y); [reflexivity|]. rewrite IH. apply perm_swap.
+Qed.
+
+Lemma insert_str_sorted x l : ssorted l -> ssorted (insert_str x l).
+Proof.
+  unfold ssorted. induction 1 as [|y r Hs IH Hall]; simpl.
+  - constructor; constructor.
+  - destruct (sleb x y) eqn:E.
+    + constructor; [constructor; assumption|]. constructor; [assumption|].
+      rewrite Forall_forall in *. intros z Hz. eapply sleb_trans; eauto.
+    + constructor; [assumption|]. rewrite Forall_forall in *. intros z Hz.
+      apply (Permutation_in _ (insert_str_perm x r)) in Hz. destruct Hz as [<-|Hz]; [|auto].
+      apply sltb_sleb. apply sleb_false_sltb. assumption.
+Qed.
+
+Lemma sort_str_perm l : Permutation (sort_str l) l.
+Proof. induction l as [|x r IH]; simpl; [reflexivity|]. rewrite insert_str_perm. constructor. assumption. Qed.
+
+Lemma sort_str_sorted l : ssorted (sort_str l).
+Proof. induction l as [|x r IH]; simpl; [constructor|]. apply insert_str_sorted. assumption. Qed.
+
+Lemma ssorted_perm_unique l1 : forall l2, ssorted l1 -> ssorted l2 -> Permutation l1 l2 -> l1 = l2.
+Proof.
+  unfold ssorted. induction l1 as [|a l1 IH]; intros l2 H1 H2 P.
+  - apply Permutation_nil in P. subst. reflexivity.
+  - destruct l2 as [|b l2]; [apply Permutation_sym, Permutation_nil in P; discriminate|].
+    inversion H1 as [|? ? Hs1 Ha]; subst. inversion H2 as [|? ? Hs2 Hb]; subst.
+    rewrite Forall_forall in Ha, Hb.
+    assert (a = b) as ->.
+    { assert (In a (b :: l2)) as Ia by (eapply Permutation_in; [exact P|left; reflexivity]).
+      assert (In b (a :: l1)) as Ib by (eapply Permutation_in; [apply Permutation_sym; exact P|left; reflexivity]).
+      destruct Ia as [E|Ia]; [auto|]. destruct Ib as [E|Ib]; [auto|].
+      apply sleb_antisym; [apply Ha; assumption|apply Hb; assumption]. }
+    f_equal. apply IH; [assumption|assumption|]. eapply Permutation_cons_inv. exact P.
+Qed.
+
+Lemma sort_str_perm_eq l l' : Permutation l l' -> sort_str l = sort_str l'.
+Proof.
+  intro P. apply ssorted_perm_unique; try apply sort_str_sorted.
+  rewrite sort_str_perm, P. symmetry. apply sort_str_perm.
+Qed.
+
+Lemma sort_str_In l x : In x (sort_str l) <-> In x l.
+Proof. split; apply Permutation_in; [apply sort_str_perm|apply Permutation_sym, sort_str_perm]. Qed.
